@@ -51,10 +51,10 @@ func (r *Rng) Range(lo, hi int) int { // inclusive
 	}
 	return lo + r.Intn(hi-lo+1)
 }
-func (r *Rng) Bool() bool        { return r.U64()&1 == 1 }
-func (r *Rng) P(p float64) bool  { return float64(r.U64()>>11)/float64(1<<53) < p }
-func (r *Rng) F() float64        { return float64(r.U64()>>11) / float64(1<<53) }
-func (r *Rng) Pick(n int) int    { return r.Intn(n) }
+func (r *Rng) Bool() bool       { return r.U64()&1 == 1 }
+func (r *Rng) P(p float64) bool { return float64(r.U64()>>11)/float64(1<<53) < p }
+func (r *Rng) F() float64       { return float64(r.U64()>>11) / float64(1<<53) }
+func (r *Rng) Pick(n int) int   { return r.Intn(n) }
 func (r *Rng) PickStr(xs []string) string {
 	if len(xs) == 0 {
 		return ""
